@@ -30,7 +30,7 @@ ASSUMPTIONS = ['one-shot bytes.decode of the standard library is the definition 
                'garbage bytes are injected only for utf-8, utf-8-sig, utf-16-le, latin-1, cp1252, shift_jis, euc_jp, gb18030 '
                '(the BOM-sniffing utf-16/utf-32 incremental decoders legitimately differ from one-shot decoding on garbage)',
                'the stream never ends inside a character']
-REQUIRED = ['splittings', 'cuts_inside_character', 'transport_fd', 'transport_fd_pair', 'transport_socket', 'transport_async_direct',
+REQUIRED = ['splittings', 'cuts_inside_character', 'transport_fd', 'transport_fd_assign', 'transport_fd_pair', 'transport_socket', 'transport_async_direct',
             'transport_async_loop', 'transport_mixed_loop', 'transport_pty', 'transport_popen', 'log_compared', 'bytes_mode_cases', 'interact_sessions_with_cut_characters']
 
 CODECS = ['utf-8', 'utf-16', 'utf-16-le', 'utf-32', 'latin-1', 'cp1252', 'shift_jis', 'euc_jp', 'gb18030', 'utf-8-sig',
@@ -120,7 +120,13 @@ class Log(object):
 
 # ---------------------------------------------------------------- transports
 
-def run_fd(pieces, enc, errors, use_expect):
+def run_fd_assign(pieces, enc, errors, use_expect):
+    """like run_fd, but between the reads the caller assigns to the public `buffer` attribute (puts the pending text
+    back as it is): what the decoder holds of an unfinished character is not part of that text and must survive"""
+    return run_fd(pieces, enc, errors, use_expect, assign=True)
+
+
+def run_fd(pieces, enc, errors, use_expect, assign=False):
     r, w = os.pipe()
     try:
         c = fdpexpect.fdspawn(r, encoding=enc, codec_errors=errors, timeout=5)
@@ -136,8 +142,12 @@ def run_fd(pieces, enc, errors, use_expect):
                     c.expect_exact(['\x00\x00NEVER'] if enc else [b'\x00\x00NEVER'], timeout=0)
                 except TIMEOUT:
                     pass
+                if assign:
+                    c.buffer = c.before         # (after a TIMEOUT `before` is all the pending text)
             else:
                 got = got + c.read_nonblocking(1 << 16, 1)
+                if assign:
+                    c.buffer = c.buffer
         os.close(w)
         w = None
         try:
@@ -422,7 +432,7 @@ def run_link(kind):
     return run
 
 
-RUNNERS = {'fd': run_fd, 'fd_pair': run_fd_pair, 'socket': run_socket, 'async_direct': run_async_direct, 'async_loop': run_async_loop, 'mixed_loop': run_mixed_loop,
+RUNNERS = {'fd': run_fd, 'fd_assign': run_fd_assign, 'fd_pair': run_fd_pair, 'socket': run_socket, 'async_direct': run_async_direct, 'async_loop': run_async_loop, 'mixed_loop': run_mixed_loop,
            'pty': run_link('pty'), 'popen': run_link('popen')}
 
 
@@ -492,7 +502,7 @@ def plan(tier, seed):
     return specs
 
 
-FAST = ['fd', 'socket', 'async_direct', 'fd_pair']
+FAST = ['fd', 'socket', 'async_direct', 'fd_pair', 'fd_assign']
 PTY_CODECS = (None, 'utf-8', 'latin-1', 'cp1252', 'shift_jis', 'euc_jp', 'gb18030', 'big5')
 
 
@@ -526,7 +536,7 @@ def run_shard(spec, acc):
             if len(data) > 12:
                 continue
             made += 1
-            tr = FAST[made % 4]
+            tr = FAST[made % len(FAST)]
             n = len(data)
             for k in range(0, spec['maxcuts'] + 1):
                 for cuts in itertools.combinations(range(1, n), k):
